@@ -127,7 +127,7 @@ pub fn spec_for(prop: &str) -> Option<CheckSpec> {
             prop: "C14",
             level: "exploration",
             parts: vec![Part { scen: &DE, quick: 4_000_000, thorough: 150_000_000 }],
-            rule: "one case = (target type of a 38-type family, UTF-8 document: serializer output of a generated value / 1-3 token-level mutations / token soup / truncation, source kind SimBufRead or std BufReader(cap), cut set); from_str and from_reader must both fail or both succeed with equal values; distinct = Plan hash; non-trivial = at least one piece boundary strictly inside markup, or from_str fails (then from_reader must fail too); evidence also reports how many cases had a boundary inside markup AND a successful from_str",
+            rule: "one case = (target type of a 40-type family, UTF-8 document: serializer output of a generated value / 1-3 token-level mutations / token soup / truncation, source kind SimBufRead or std BufReader(cap), cut set); from_str and from_reader must both fail or both succeed with equal values; distinct = Plan hash; non-trivial = at least one piece boundary strictly inside markup, or from_str fails (then from_reader must fail too); evidence also reports how many cases had a boundary inside markup AND a successful from_str",
             assumptions: vec![
                 "only the chunking is varied (no interrupts, no I/O errors): exactly what C14 states",
                 "values are compared with PartialEq; error values are not compared",
